@@ -136,18 +136,25 @@ def oracle_simplifier(case, rec):
         return
     reduced, removed = np.asarray(out[0]), np.asarray(out[1])
     r = [int(v) for v in reduced]
-    if not (len(r) >= 2 and r[0] == 0 and r[-1] == n - 1 and all(a < b for a, b in zip(r, r[1:]))):
+    wellformed = len(r) >= 2 and r[0] == 0 and r[-1] == n - 1 and all(a < b for a, b in zip(r, r[1:]))
+    if len(r) < 2:
         rec.tag('skipped:malformed-reduction')
         return
     ref = rec.call(8, L.rdp.compute_removed_points, p, reduced, _site='rdp.compute_removed_points')
     if ref is FAILED:
         return
     ref = np.asarray(ref)
-    want = definitional(r)
-    rec.check(ref.tolist() == want, 'removed:not-definitional', (ref.tolist(), want))
+    if wellformed:
+        want = definitional(r)
+        rec.check(ref.tolist() == want, 'removed:not-definitional', (ref.tolist(), want))
+    else:
+        # a malformed reduction is C01's finding, but the statement quantifies over EVERY reduction a
+        # simplifier produces: its table must still be the one compute_removed_points derives and
+        # mapping must still translate positions to reduced[I]
+        rec.tag('malformed-reduction:still-checked')
     rec.check(removed.shape == ref.shape and np.array_equal(removed.astype(float), ref.astype(float)),
               'removed:simplifier-table-differs-from-compute_removed_points', (removed.tolist(), ref.tolist()))
-    I = [i for i in range(len(r)) if case['Ibits'][i]]
+    I = [i for i in range(len(r)) if case['Ibits'][i % len(case['Ibits'])]]
     for name, idx in (('subset', I), ('all', list(range(len(r))))):
         o = rec.call(4 * n + 16, L.rdp.mapping, np.array(idx, dtype=int), reduced, removed, _site='rdp.mapping')
         if o is FAILED:
